@@ -11,6 +11,33 @@ CHECKS = {
   note="Trusts float64 arithmetic as reference; tolerance 32*eps32*max(target,result) calibrated (worst seen 4.6).",
   ref="DESIGN.md §4 C12"),
 }
+CHECKS.update({
+ "C01": dict(
+  technique="property-based round-trip and transcoding testing (rapid) with a per-kind numeric oracle; exhaustive zero-to-one grid",
+  text="Generated protocol-respecting programs (all 30 methods, every colour kind, every float class, runs across the 16/32 limits, per-path resolution, custom metadata) are encoded and decoded and compared under a numeric rule fixed in DESIGN; decoder-accepted streams in arbitrary spellings (incl. ending inside a path) are transcoded twice. Exploration is the right level: the domain is unbounded programs, the oracle is a round trip.",
+  note="Reference parser cross-checks the decoder on the encoder's output; tolerance rule as written in DESIGN §4 C01; one open finding (D10) is excluded by construction and counted.",
+  ref="DESIGN.md §4 C01"),
+ "C02": dict(
+  technique="fuzz-style robustness oracle over corpus truncations/corruptions (enumerated), rapid mutations and hostile constants",
+  text="Every truncation point of all 971 corpus graphics, single-byte corruptions (3 per position quick, all 255 thorough), mutated/spliced generated streams and adversarial constants run through five entry points with invariants checked inside the target (no panic, input and sentinel untouched, DecodeError only, agreement, nothing before valid metadata, Reset first, calls<=bytes, <=4 rasteriser calls per call, prefix monotonicity).",
+  note="Termination by a 20 s watchdog; rasteriser activity observed with a recording rasteriser; linux/amd64 float->int conversions.",
+  ref="DESIGN.md §4 C02"),
+ "C03": dict(
+  technique="differential testing against an independent reference parser; exhaustive opcode x width sweep; rapid non-canonical streams",
+  text="The full 2x256 opcode table with every operand-width combination and every truncation of one spelling per opcode is enumerated; generated streams in arbitrary legal spellings have a constructive oracle (the op list they were assembled from); mutated streams and corpus files are compared with the reference parser for verdict and calls before the error.",
+  note="Trusts internal/spec/parse.go as a reading of the specification (it agrees with the decoder on the whole corpus).",
+  ref="DESIGN.md §4 C03"),
+ "C11": dict(
+  technique="property-based testing: the listing is parsed back and compared with Decode's calls",
+  text="Generated streams covering every opcode/operand form/colour kind/metadata variant, mutated streams and the corpus: same error value from Decode and Disassemble; byte column reproduces the input; one instruction line per delivered call; printed numbers, colours, selectors, ADJ, repeat counts and arc flags parse back to the delivered values.",
+  note="Listing grammar taken from the golden .disassembly files; float text re-read at 32 bits.",
+  ref="DESIGN.md §4 C11"),
+ "C13": dict(
+  technique="property-based testing (rapid) of generated metadata sections with a constructive expectation + reference parser",
+  text="Metadata sections with 0-3 chunks in every order, every palette format/count, every viewBox coordinate form, degenerate/inverted/non-finite boxes, lengths off by -3..+3 or huge, counts beyond the data, unknown MIDs; one injected defect per section => DecodeError and zero calls; valid => exact Reset arguments and DecodeViewBox result; DecodeViewBox independent of the instruction section.",
+  note="One defect per generated section (two can cancel); reference parser for mutated real metadata.",
+  ref="DESIGN.md §4 C13"),
+})
 NOT_YET = {}
 
 def main():
